@@ -56,6 +56,7 @@ type Spec struct {
 	Outside    []string          `json:"outside"`
 	ValidateN  int               `json:"validate_n"`
 	Solver     string            `json:"solver"`
+	Vfs        string            `json:"vfs"` // harness package (rel dir) that gets the shared file-system model and owns the os.* replacements
 }
 
 type RunCfg struct {
@@ -85,6 +86,15 @@ func (c *RunCfg) noopPkg(p string) bool {
 		}
 	}
 	return false
+}
+
+var vfsReplacements = map[string]string{
+	"os.OpenFile": "vfsOpenFile", "os.Open": "vfsOpen", "os.Create": "vfsCreate",
+	"(*os.File).Read": "vfsRead", "(*os.File).ReadAt": "vfsReadAt", "(*os.File).Write": "vfsWrite", "(*os.File).WriteString": "vfsWriteString",
+	"(*os.File).Seek": "vfsSeek", "(*os.File).Sync": "vfsSync", "(*os.File).Truncate": "vfsTruncateFD", "(*os.File).Close": "vfsClose",
+	"(*os.File).Name": "vfsName", "(*os.File).Stat": "vfsFileStat", "os.Stat": "vfsStat", "os.Remove": "vfsRemove", "os.RemoveAll": "vfsRemoveAll",
+	"os.Rename": "vfsRename", "os.MkdirAll": "vfsMkdirAll", "os.ReadDir": "vfsReadDir", "os.ReadFile": "vfsReadFile", "os.WriteFile": "vfsWriteFile",
+	"os.Truncate": "vfsTruncate", "os.MkdirTemp": "vfsMkdirTemp",
 }
 
 var defaultNoop = []string{"go.uber.org/zap", "log", "github.com/influxdata/influxdb/logger", "expvar", "runtime/debug", "runtime/pprof", "github.com/influxdata/influxdb/pkg/tracing", "github.com/opentracing/opentracing-go"}
@@ -194,7 +204,7 @@ func TestVerifReplay(t *testing.T) {
 }
 `
 
-func buildOverlay(prop string, rels []string) (map[string][]byte, string, error) {
+func buildOverlay(prop string, rels []string, vfsRel string) (map[string][]byte, string, error) {
 	overlay := map[string][]byte{}
 	buildDir := filepath.Join(verifDir, "build", prop)
 	os.RemoveAll(buildDir)
@@ -230,14 +240,21 @@ func buildOverlay(prop string, rels []string) (map[string][]byte, string, error)
 			}
 			put(filepath.Base(f), data, true)
 		}
+		if rel == vfsRel {
+			data, err := os.ReadFile(filepath.Join(verifDir, "harness", "shared", "zz_verif_vfs.go"))
+			if err != nil {
+				return nil, "", err
+			}
+			put("zz_verif_vfs.go", []byte(strings.Replace(string(data), "package PKG", "package "+name, 1)), true)
+		}
 	}
 	js, _ := json.MarshalIndent(map[string]interface{}{"Replace": replace}, "", " ")
 	os.WriteFile(filepath.Join(buildDir, "overlay.json"), js, 0o644)
 	return overlay, buildDir, nil
 }
 
-func loadProgram(prop string, rels []string) (*loaded, error) {
-	overlay, buildDir, err := buildOverlay(prop, rels)
+func loadProgram(prop string, rels []string, vfsRel string) (*loaded, error) {
+	overlay, buildDir, err := buildOverlay(prop, rels, vfsRel)
 	if err != nil {
 		return nil, err
 	}
@@ -297,6 +314,7 @@ type sharedQueue struct {
 	mu      sync.Mutex
 	items   []WorkItem
 	idle    int
+	busy    int
 	workers int
 	done    bool
 	paths   int64
@@ -308,21 +326,30 @@ func (q *sharedQueue) donate(items []WorkItem) {
 	q.mu.Unlock()
 }
 
-func (q *sharedQueue) take() (WorkItem, bool) {
+// takeOrDone hands out a work item (marking the caller busy until it calls release) or reports
+// that exploration is finished (queue empty and no busy worker).
+func (q *sharedQueue) takeOrDone() (WorkItem, bool, bool) {
 	q.mu.Lock()
 	defer q.mu.Unlock()
 	if n := len(q.items); n > 0 {
 		w := q.items[n-1]
 		q.items = q.items[:n-1]
-		return w, true
+		q.busy++
+		return w, true, false
 	}
-	return WorkItem{}, false
+	return WorkItem{}, false, q.busy == 0
+}
+
+func (q *sharedQueue) release() {
+	q.mu.Lock()
+	q.busy--
+	q.mu.Unlock()
 }
 
 func (q *sharedQueue) hungry() bool {
 	q.mu.Lock()
 	defer q.mu.Unlock()
-	return len(q.items) < q.workers && q.idle > 0 || len(q.items) == 0
+	return len(q.items) < q.workers
 }
 
 type exploreOut struct {
@@ -376,7 +403,6 @@ func explore(l *loaded, cfg *RunCfg, entry *ssa.Function, name string, workers i
 	out.res = HarnessResult{Name: name, Reached: map[string]int{}, Funcs: map[string]bool{}}
 	var mu sync.Mutex
 	var wg sync.WaitGroup
-	var active int32
 	var stop int32
 	var totalPaths int64
 	for w := 0; w < workers; w++ {
@@ -402,17 +428,11 @@ func explore(l *loaded, cfg *RunCfg, entry *ssa.Function, name string, workers i
 					item = e.pending[n-1]
 					e.pending = e.pending[:n-1]
 				} else {
-					it, ok := q.take()
+					it, ok, done := q.takeOrDone()
+					if done {
+						break
+					}
 					if !ok {
-						if atomic.LoadInt32(&active) == 0 {
-							// double check under lock
-							q.mu.Lock()
-							empty := len(q.items) == 0
-							q.mu.Unlock()
-							if empty && atomic.LoadInt32(&active) == 0 {
-								break
-							}
-						}
 						idleSpins++
 						time.Sleep(time.Duration(1+idleSpins%5) * time.Millisecond)
 						continue
@@ -420,7 +440,6 @@ func explore(l *loaded, cfg *RunCfg, entry *ssa.Function, name string, workers i
 					item = it
 				}
 				idleSpins = 0
-				atomic.AddInt32(&active, 1)
 				e.RunPath(entry, item)
 				// reachability witnesses: first path reaching a label
 				for lbl := range e.path.reached {
@@ -445,7 +464,9 @@ func explore(l *loaded, cfg *RunCfg, entry *ssa.Function, name string, workers i
 					q.donate(e.pending[:k])
 					e.pending = append([]WorkItem{}, e.pending[k:]...)
 				}
-				atomic.AddInt32(&active, -1)
+				if len(e.pending) == 0 {
+					q.release()
+				}
 				n := atomic.AddInt64(&totalPaths, 1)
 				if n > int64(cfg.Limits.MaxPaths) {
 					local.Incomplete = appendUniq(local.Incomplete, fmt.Sprintf("bound: more than %d paths", cfg.Limits.MaxPaths))
@@ -726,7 +747,7 @@ func runCheck(specPath, tier, only string, workers int, noNative, trace bool) in
 	if len(hs) == 0 {
 		fatal2("no harness selected")
 	}
-	l, err := loadProgram(spec.Property, rels)
+	l, err := loadProgram(spec.Property, rels, spec.Vfs)
 	if err != nil {
 		fatal2("load: %v", err)
 	}
@@ -751,6 +772,16 @@ func runCheck(specPath, tier, only string, workers int, noNative, trace bool) in
 			p += "/" + r
 		}
 		cfg.harnessPkgs[p] = true
+	}
+	if spec.Vfs != "" {
+		if spec.Replace == nil {
+			spec.Replace = map[string]string{}
+		}
+		for from, to := range vfsReplacements {
+			if _, ok := spec.Replace[from]; !ok {
+				spec.Replace[from] = spec.Vfs + "." + to
+			}
+		}
 	}
 	for from, to := range spec.Replace {
 		f := l.resolveHarnessFunc(to)
@@ -1082,10 +1113,12 @@ func replayFile(path string) int {
 	}
 	l := &loaded{}
 	var rels []string
+	vfsRel := ""
 	sdata, err := os.ReadFile(rf.Spec)
 	if err == nil {
 		var spec Spec
 		json.Unmarshal(sdata, &spec)
+		vfsRel = spec.Vfs
 		seen := map[string]bool{}
 		for _, h := range spec.Harnesses {
 			if !seen[h.Pkg] {
@@ -1096,7 +1129,7 @@ func replayFile(path string) int {
 	} else {
 		rels = []string{rf.Pkg}
 	}
-	_, buildDir, err := buildOverlay(rf.Property+"-replay", rels)
+	_, buildDir, err := buildOverlay(rf.Property+"-replay", rels, vfsRel)
 	if err != nil {
 		fmt.Println("overlay:", err)
 		return 2
